@@ -138,10 +138,37 @@ pub struct Session {
 impl Session {
     pub fn mount(dev: &MemDev, clock: &Clock, mo: &MountOpts) -> Result<Session, FErr> {
         dev.reset_pos();
-        let opts = fatfs::FsOptions::new()
-            .time_provider(clock.clone())
-            .update_accessed_date(mo.access_date)
-            .strict(mo.strict);
+        // The options are built in a varying order and, where a value equals the documented default
+        // (update_accessed_date false, strict true), sometimes by not calling the setter at all: every way a user can
+        // arrive at the same options has to give the same behaviour. The order is a pure function of the state of the
+        // case (device calls so far, clock), so replays reproduce it.
+        fn acc<TP: fatfs::TimeProvider, OCC: fatfs::OemCpConverter>(o: fatfs::FsOptions<TP, OCC>, v: bool, omit: bool) -> fatfs::FsOptions<TP, OCC> {
+            if omit && !v {
+                o
+            } else {
+                o.update_accessed_date(v)
+            }
+        }
+        fn stri<TP: fatfs::TimeProvider, OCC: fatfs::OemCpConverter>(o: fatfs::FsOptions<TP, OCC>, v: bool, omit: bool) -> fatfs::FsOptions<TP, OCC> {
+            if omit && v {
+                o
+            } else {
+                o.strict(v)
+            }
+        }
+        let sel = dev.calls().wrapping_mul(31).wrapping_add(clock.now_ms() / 1000) % 24;
+        let omit = sel >= 12;
+        let (a, st, c) = (mo.access_date, mo.strict, clock.clone());
+        let o = fatfs::FsOptions::new();
+        let opts = match sel % 6 {
+            0 => stri(acc(o.time_provider(c), a, omit), st, omit),
+            1 => acc(stri(o.time_provider(c), st, omit), a, omit),
+            2 => stri(acc(o, a, omit).time_provider(c), st, omit),
+            3 => stri(acc(o, a, omit), st, omit).time_provider(c),
+            4 => acc(stri(o, st, omit).time_provider(c), a, omit),
+            _ => acc(stri(o, st, omit), a, omit).time_provider(c),
+        };
+        let opts = if sel % 4 == 3 { opts.oem_cp_converter(fatfs::LossyOemCpConverter::new()) } else { opts };
         let fs = Fs::new(dev.handle(), opts)?;
         let p = Box::into_raw(Box::new(fs));
         Ok(Session {
